@@ -163,6 +163,37 @@ func runC22(rc *RunCtx, i int) {
 
 	// ---- phase B: stalled consumers starve no one
 	ns := r.Range(1, 8)
+	// In every second case the MetaStore iterations of the stalled queries are themselves slow:
+	// each pauses (honouring its context) after a few files, so the stalled query is unfinished
+	// with nothing queued for its workers: a worker that wrongly keeps a slot parks on it.
+	iterGate := stores.NewGate(true)
+	defer iterGate.Open()
+	var gmu sync.Mutex
+	stalling := i%2 == 0
+	stalledIters := map[int]int{} // iteration seq -> yields so far
+	pauseAfter := r.Range(5, 9)
+	if stalling {
+		log.Plan = &stores.Plan{Decide: func(c *stores.Call) stores.Action {
+			gmu.Lock()
+			defer gmu.Unlock()
+			switch c.Kind {
+			case "Iter":
+				if stalling {
+					stalledIters[c.Seq] = 0
+				}
+			case "IterYield":
+				if n, ok := stalledIters[c.Handle]; ok {
+					stalledIters[c.Handle] = n + 1
+					if n >= pauseAfter {
+						return stores.Action{Gate: iterGate}
+					}
+				}
+			}
+			return stores.Action{}
+		}}
+		defer func() { log.Plan = nil }()
+		rc.Res.Count("phaseB_with_paused_iterators", 1)
+	}
 	var stalled []*bs.Results
 	for k := 0; k < ns; k++ {
 		rs, err := e.Query(context.Background(), &bs.Query{})
@@ -198,7 +229,39 @@ func runC22(rc *RunCtx, i int) {
 			parked++
 		}
 	}
+	gmu.Lock()
+	stalling = false // iterations started from here on belong to the other queries
+	gmu.Unlock()
 	rc.Res.Count("stalled_queries_parked", int64(parked))
+	// some of the stalled consumers now read a little (so hand-offs that were blocked on the full
+	// buffer complete) and stop again for good; the pipeline settles once more
+	if i%2 == 0 {
+		for k, rs := range stalled {
+			if k%2 == 0 {
+				// never more than what has already been matched: the rest may sit behind a
+				// paused iterator, and Next would wait for it
+				for n := min(int64(r.Range(1, 200)), last[k]); n > 0 && rs.Next(); n-- {
+				}
+				rc.Res.Count("stalled_consumers_read_a_little", 1)
+			}
+		}
+		stable = 0
+		for t := 0; t < 300 && stable < 10; t++ {
+			changed := false
+			for k, rs := range stalled {
+				if m := rs.Stats().RowsMatched; m != last[k] {
+					last[k] = m
+					changed = true
+				}
+			}
+			if changed {
+				stable = 0
+			} else {
+				stable++
+			}
+			time.Sleep(10 * time.Millisecond)
+		}
+	}
 	others := r.Range(1, 6)
 	doneB := make(chan struct{})
 	var wg2 sync.WaitGroup
